@@ -366,7 +366,7 @@ def sysStep (y : State) (op : Op) (hint : Option Who) : State × Obs :=
     let cst := d.caches o
     (match cst.fills.findIdx? (fun f => f.key == k && f.stage == .sent) with
      | some idx =>
-       if !d.held.contains key then (y, .refused) else
+       if !d.used || !d.held.contains key then (y, .refused) else
        if !d.modern then
          let v := curVersion y key
          (y.setSlot i (d.setCache o { cst with fills := cst.fills.set idx ⟨k, 0, .responded v y.ttl, 0⟩ }), .held v)
@@ -380,7 +380,7 @@ def sysStep (y : State) (op : Op) (hint : Option Who) : State × Obs :=
     let cst := d.caches o
     (match cst.fills.findIdx? (fun f => f.key == k && f.stage != .sent) with
      | some idx =>
-       if !d.held.contains key then (y, .refused) else
+       if !d.used || !d.held.contains key then (y, .refused) else
        let v := match (cst.fills.getD idx ⟨0, 0, .sent, 0⟩).stage with | .responded v _ => v | _ => 0
        let d := { d with held := d.held.filter (· != key) }
        if !d.modern then
